@@ -105,6 +105,11 @@ class Program:
         self.package = package
         self.modules = {}
         self._mro_cache = {}
+        try:
+            with open(os.path.join(os.path.dirname(os.path.dirname(os.path.abspath(__file__))), "reference", "HEAD")) as fh:
+                self.reference_head = fh.read().strip()
+        except OSError:
+            self.reference_head = None
         self._load()
 
     # ------------------------------------------------------------------ loading
